@@ -51,6 +51,7 @@ type Interp struct {
 	luts  map[*Term]*lutRec
 	pendingDeferOf *frame
 	syncMaps map[Ptr]*MapV
+	ubs   map[*Term]uint64 // narrow.go: memo of syntactic upper bounds
 }
 
 func NewInterp(prog *ssa.Program, ex *Explorer) *Interp {
@@ -168,7 +169,7 @@ func (in *Interp) concInt(i Int, max int, what string) int {
 		}
 		return int(i.C)
 	}
-	opt := in.ex.take("len:"+what, max+1, func(k int) *Term {
+	opt := in.ex.takeValue("len:"+what, i.S, max, func(k int) *Term {
 		if in.intMode {
 			return in.ts.Op("=", 0, i.S, in.ts.IntU(uint64(k)))
 		}
@@ -1001,6 +1002,15 @@ func (in *Interp) intBinop(op token.Token, x, y Int) V {
 		if in.truth(isZero) {
 			panic(goPanic{Str{S: "integer divide by zero"}})
 		}
+		if !s {
+			o := "bvurem"
+			if op == token.QUO {
+				o = "bvudiv"
+			}
+			if nt := in.narrowUDiv(o, w, xt, yt); nt != nil {
+				return in.mkInt(nt, w, s)
+			}
+		}
 		if op == token.QUO {
 			if s {
 				return ar("bvsdiv")
@@ -1061,6 +1071,9 @@ func (in *Interp) eq(a, b V) Bool {
 			return Bool{C: false}
 		}
 		if in.intMode {
+			if in.spec != nil && in.spec.WordByteEq {
+				return in.mkBool(in.eqByteSeqI(xb, yb))
+			}
 			if t, ok := in.bytesEqGrouped(xb, yb); ok {
 				return in.mkBool(t)
 			}
